@@ -116,6 +116,21 @@ pub struct Vocab {
     pub stamp_forms: Vec<(String, String)>,
 }
 
+impl Vocab {
+    pub fn all_keywords(&self) -> Vec<String> {
+        let mut v: Vec<String> = vec![];
+        v.extend(self.prefixes.iter().cloned());
+        v.extend(self.connecters.iter().cloned());
+        v.extend(self.copulas.iter().cloned());
+        v.extend(self.puncts.iter().cloned());
+        for (l, r) in self.set_brackets.iter().chain(self.stamp_forms.iter()) {
+            v.push(l.clone());
+            v.push(r.clone());
+        }
+        v
+    }
+}
+
 pub fn vocab(fi: usize) -> Vocab {
     let l = fmts::l(fi);
     Vocab {
